@@ -12,7 +12,7 @@ class _Stepper(object):
 
     def reset(self):
         self.last = torch.tensor(float('inf'))
-        self.steps, self._continual = 0, True
+        self.steps, self._continual, self.patience_count = 0, True, 0
 
 
 class ReduceToBason(_Stepper):
